@@ -40,17 +40,17 @@ def run_patch(patch, govc, claimed, allp):
     vd = tempfile.mkdtemp(prefix='bn_vf_', dir='/tmp')
     res = {}
     try:
-        rc, out = sh(['git', '-C', '/repo', 'worktree', 'add', '--detach', wt, 'HEAD'])
+        rc, out = sh(['git', '-C', '/repo', 'worktree', 'add', '--detach', wt, PIN['commit']])
         assert rc == 0, out
         rc, out = sh(['git', 'apply', patch], cwd=wt)
         if rc != 0:
             return patch, {'error': 'patch does not apply: ' + out[-200:]}
         for f in ['contracts', 'properties.map.json', 'known_findings.json']:
-            src = os.path.join('/verif', f)
+            src = os.path.join(PIN['verif'], f)
             (shutil.copytree if os.path.isdir(src) else shutil.copy)(src, os.path.join(vd, f))
         # one run over the union of the functions of all claimed properties; a failure is attributed to every
         # property whose map entry covers the function (govc -multi)
-        rc, out = sh([govc, '-multi', ','.join(claimed), '-verif', vd, '-repo', wt])
+        rc, out = sh([PIN['govc'], '-multi', ','.join(claimed), '-verif', vd, '-repo', wt])
         got = False
         for l in out.splitlines():
             m = re.match(r'MULTI (C\d\d) violations=(\d+) ?(.*)', l)
@@ -64,6 +64,17 @@ def run_patch(patch, govc, claimed, allp):
         sh(['git', '-C', '/repo', 'worktree', 'remove', '--force', wt])
         shutil.rmtree(wt, ignore_errors=True); shutil.rmtree(vd, ignore_errors=True)
     return patch, res
+PIN = {}
+def pin(govc='/verif/bin/govc'):
+    """the run is made against the state at its start: later commits, rebuilt binaries and edited contract files do not leak in"""
+    d = tempfile.mkdtemp(prefix='pin_', dir='/tmp')
+    PIN['commit'] = subprocess.run(['git', '-C', '/repo', 'rev-parse', 'HEAD'], capture_output=True, text=True).stdout.strip()
+    shutil.copy(govc, os.path.join(d, 'govc')); PIN['govc'] = os.path.join(d, 'govc')
+    for f in ['contracts', 'properties.map.json', 'known_findings.json']:
+        src = os.path.join('/verif', f)
+        (shutil.copytree if os.path.isdir(src) else shutil.copy)(src, os.path.join(d, f))
+    PIN['verif'] = d
+    return d
 if __name__ == '__main__':
     args = sys.argv[1:]; j = 3; govc = '/verif/bin/govc'; allp = False
     while args and args[0].startswith('-'):
@@ -72,6 +83,7 @@ if __name__ == '__main__':
         elif args[0] == '-all': allp = True; args = args[1:]
         else: break
     patches = args or sorted(p for p in glob.glob(BD + '/*/*.diff') if '/excluded/' not in p)
+    pindir = pin(govc)
     claimed = [c['property_id'] for c in json.load(open('/verif/MANIFEST.json'))['checks']]
     rpath = BD + '/RESULTS.json'
     results = json.load(open(rpath)) if os.path.exists(rpath) else {}
@@ -92,4 +104,5 @@ if __name__ == '__main__':
                 for l in res[p].get('first', []): print('    ', p, l)
                 if 'tail' in res[p]: print('    ', p, res[p]['tail'][-300:])
             json.dump(results, open(rpath, 'w'), indent=1, sort_keys=True)
+    shutil.rmtree(pindir, ignore_errors=True)
     sys.exit(1 if alarms else 0)
